@@ -357,11 +357,24 @@ func (c *xsyncMapOf[K, V]) DeleteExpired() {
 	now := time.Now().UnixNano()
 	c.items.Range(func(k K, v itemOf[V]) bool {
 		i := v
-		if i.expiredWithNow(now) {
-			c.items.Delete(k)
-			if ec != nil {
-				evictedItems = append(evictedItems, kvOf[K, V]{k, i.v})
+		if !i.expiredWithNow(now) {
+			return true
+		}
+		// double check under the bucket lock: delete only the expired value
+		removed := false
+		c.items.Compute(k, func(value itemOf[V], loaded bool) (itemOf[V], bool) {
+			if loaded {
+				if !value.expiredWithNow(now) {
+					// k has a new value
+					return value, false
+				}
+				i = value
+				removed = true
 			}
+			return value, true
+		})
+		if removed && ec != nil {
+			evictedItems = append(evictedItems, kvOf[K, V]{k, i.v})
 		}
 		return true
 	})
